@@ -133,6 +133,7 @@ func runOneStartPipe(c spCase, tmpBase string, idx int) (sx.V, sx.V) {
 			sr.Unnamed = c.RunnerStart == 3
 		}
 		sr.OnStart = func(s *hk.Scripted) {
+			leaveSocket(s.TmpDir)
 			s.StdoutW.Write(c.Out)
 			if !stall && !strings.Contains(string(c.Out), "\n") {
 				s.Exit()
